@@ -355,7 +355,8 @@ def probe_text(row: Row, setting: str) -> str:
         n = max(n, 1)
         live = [n - 1]           # spectator pair: a probe always has something to read out
     L: list[str] = []
-    nrec = max(n, 1) if gd.takes_measurement_record_targets else 0
+    # one record more than targets: lookback rec[-(i+1)] then never coincides with "record number i"
+    nrec = n + 1 if gd.takes_measurement_record_targets else 0
     if nrec:
         src = [2 * n + j for j in range(nrec)]
         L.append("H " + " ".join(map(str, src)))
@@ -448,14 +449,20 @@ def _run_probe(job):
             for r in np.asarray(s, dtype=np.uint8):
                 k = tuple(int(x) for x in r)
                 counts[k] = counts.get(k, 0) + 1
+            # Chernoff bound on the binomial tail, per outcome: P(count as far from n*p as observed) <= exp(-mu*h(k/mu)),
+            # h(x) = x ln x - x + 1 (valid for both tails); reported is the smallest log-bound over all outcomes
             worst = 0.0
             for k in set(counts) | set(ref):
                 p = ref.get(k, 0.0)
-                q = counts.get(k, 0) / n_stim
-                sd = math.sqrt(max(p * (1 - p), 1e-12) / n_stim)
-                z = abs(p - q) / sd if p > 0 else (float("inf") if q > 0 else 0.0)
-                worst = max(worst, z)
-            out["stim_z"] = worst
+                cnt = counts.get(k, 0)
+                mu = n_stim * p
+                if mu <= 0:
+                    lb = -math.inf if cnt > 0 else 0.0
+                else:
+                    x = cnt / mu
+                    lb = -mu * ((x * math.log(x) if x > 0 else 0.0) - x + 1)
+                worst = min(worst, lb)
+            out["stim_logp"] = worst
         except Exception as e:
             out["stim_z_error"] = f"{type(e).__name__}: {str(e)[:120]}"
     out["secs"] = round(time.time() - t0, 3)
@@ -619,8 +626,10 @@ def finish_rows(ctx: Ctx, rows, idx, by_key, verdicts, cls):
                 if abs(x.get("total", 1.0) - 1.0) > 1e-5:
                     ctx.violation(r.key, f"`{r.line}`: sampler probabilities sum to {x['total']}", replay)
         for x in res:
-            if x.get("stim_z", 0.0) > 6.5:
-                ctx.broken.append(f"reference: disagrees with stim.compile_sampler on `{r.key}` probe {x['setting']} (z={x['stim_z']:.1f})")
+            if x.get("stim_logp", 0.0) < -32.0:
+                ctx.broken.append(f"reference: disagrees with stim.compile_sampler on `{r.key}` probe {x['setting']} (log tail bound {x['stim_logp']:.1f})")
+            if "stim_z_error" in x:
+                ctx.broken.append(f"reference: stim.compile_sampler failed on `{r.key}` probe {x['setting']}: {x['stim_z_error']}")
         # ---- model vs implementation
         if verdicts is not None:
             m_rej, m_ok = verdicts[i]
@@ -635,7 +644,9 @@ def finish_rows(ctx: Ctx, rows, idx, by_key, verdicts, cls):
     ctx.cov["rows_checked"] = len(idx)
     ctx.cov["rows_accepted_by_tsim"] = n_acc
     ctx.cov["rows_rejected_by_tsim"] = n_rej
-    ctx.log(f"rows: {n_acc} accepted (distribution compared), {n_rej} rejected; slowest probe {slow:.1f}s")
+    slowest = sorted(((x.get("secs", 0.0), x["key"], x["setting"]) for v in by_key.values() for x in v), reverse=True)[:3]
+    ctx.log(f"rows: {n_acc} accepted (distribution compared), {n_rej} rejected; slowest probes {slowest}")
+    ctx.cov["stim_crosscheck_probes"] = sum(1 for v in by_key.values() for x in v if "stim_logp" in x)
 
 
 def replay(ctx: Ctx, obj) -> int:
